@@ -227,9 +227,8 @@ Argument:
             not filters[0].startswith("e:") and
             not filters[0].startswith("s:") and
             not filters[0].startswith("t:")) else None
-        exp_filter = [f for f in filters if (f.startswith("e:") or
-                                             f.startswith("s:") or
-                                             f.startswith("t:"))]
+        # every further argument is a filter, the ones that are not understood are reported
+        exp_filter = list(filters[1:]) if exp_name is not None else list(filters)
         return exp_name, exp_filter
 
     def _report_completion(self):
